@@ -225,5 +225,40 @@ def run(ctx, prog, res):
              "find_first_following does not index with the unmodified position of either search outcome", lib.where_of(f))
     r4.floor(3)
 
+    # R6 -------------------------------------------------------------------------------------
+    r6 = res.rule("C20.R6", "lookups agree with the set: `contains(x)` <=> x is an element, `find_first_following(x)` = the least element >= x (None when there is none); both functions are extracted per path from MIR and evaluated on every strictly increasing vector over {0..4} (32 vectors) and every x in -1..=5 (small scope: the functions only compare, so only ranks matter; vectors longer than 5 are not explored)")
+    import itertools
+    import peval
+    ev = peval.Evaluator(prog)
+    fns = {f.name: f for k, f in prog.fns.items() if "sorted_vec::UniqueSortedVec" in k and f.name in ("contains", "find_first_following") and f.kind == "AssocFn"}
+    if set(fns) != {"contains", "find_first_following"}:
+        r6.anchor_missing("UniqueSortedVec::contains / find_first_following")
+    else:
+        n_eval = 0
+        bad = {}
+        try:
+            for k in range(0, 6):
+                for v in itertools.combinations(range(5), k):
+                    v = list(v)
+                    for x in range(-1, 6):
+                        n_eval += 2
+                        got = ev.run(fns["contains"], [("tuple", [v]), x])
+                        if bool(got) != (x in v):
+                            bad.setdefault("contains", (v, x, got, x in v))
+                        got = ev.run(fns["find_first_following"], [("tuple", [v]), x])
+                        want = min([e for e in v if e >= x], default=None)
+                        g = got[1] if got is not None else None
+                        if g != want:
+                            bad.setdefault("find_first_following", (v, x, g, want))
+        except peval.Unmodelled as ex:
+            r6.fail("C20.R6:unmodelled", "the lookups of UniqueSortedVec cannot be evaluated from their MIR any more (%s): not decided, failing closed" % ex, lib.where_of(fns["contains"]))
+            bad = None
+        if bad is not None:
+            for nm in ("contains", "find_first_following"):
+                b = bad.get(nm)
+                r6.check(b is None, {"fn": nm, "vectors": 32, "needles": 7, "evaluations": n_eval // 2}, "C20.R6:%s" % nm,
+                         "" if b is None else "%s(%r) on %r gives %r, the set says %r" % (nm, b[1], b[0], b[2], b[3]), lib.where_of(fns[nm]))
+    r6.floor(2)
+
     # W compile-time witnesses ---------------------------------------------------------------
     witness.run_doctests(ctx, prog, res, "C20.W", "outside the crate the vector can neither be built unsorted (tuple constructor is private) nor mutated in place (no DerefMut); twins compile", "c20", floor=4)
